@@ -13,7 +13,7 @@ import TrompModel.Gen.Cxx.RingIterIncr
 namespace Tromp.Cxx
 
 /-- `list<T, Disposer>::~list` — translated from include/trompeloeil/mock.hpp:1560 -/
-def ring_list_dtor (this : Ring.Ptr) (fuel : Nat) (h0 : Ring.Heap) : Ring.Heap := Id.run do
+def ring_list_dtor (this : Ring.Ptr) (fuel : Nat) (h0 : Ring.Heap Ring.Ptr) : Ring.Heap Ring.Ptr := Id.run do
   let mut h := h0
   let mut i := ring_begin this h
   for _ in List.replicate fuel () do
